@@ -347,6 +347,24 @@ def _named_conditions(fn: ast.AST) -> dict[str, ast.expr]:
                         defs[x.id] = n.value
     a = fn.args
     params = {p.arg for p in a.posonlyargs + a.args + a.kwonlyargs + ([a.vararg] if a.vararg else []) + ([a.kwarg] if a.kwarg else [])}
+    # a condition named on the line before the `if` that tests it (and read nowhere else) cannot
+    # have its operands rebound in between, however often they are rebound elsewhere
+    adjacent: set[str] = set()
+    loads: dict[str, int] = {}
+    for n in ast.walk(fn):
+        if isinstance(n, ast.Name) and isinstance(n.ctx, ast.Load):
+            loads[n.id] = loads.get(n.id, 0) + 1
+    for n in ast.walk(fn):
+        for f in ("body", "orelse", "finalbody"):
+            blk = getattr(n, f, None)
+            if not isinstance(blk, list):
+                continue
+            for s1, s2 in zip(blk, blk[1:]):
+                if isinstance(s1, ast.Assign) and len(s1.targets) == 1 and isinstance(s1.targets[0], ast.Name) and isinstance(s2, (ast.If, ast.While)):
+                    nm = s1.targets[0].id
+                    uses = sum(1 for x in ast.walk(s2.test) if isinstance(x, ast.Name) and x.id == nm)
+                    if uses and loads.get(nm, 0) == uses:
+                        adjacent.add(nm)
     out = {}
     for name, v in defs.items():
         if count.get(name) != 1 or name in params:
@@ -357,7 +375,7 @@ def _named_conditions(fn: ast.AST) -> dict[str, ast.expr]:
                for x in ast.walk(v)):
             continue  # evaluated once at the definition, possibly with effects: not the same as evaluating it at the test
         free = {x.id for x in ast.walk(v) if isinstance(x, ast.Name)}
-        if all(count.get(f, 0) <= (0 if f in params else 1) for f in free):
+        if all(count.get(f, 0) <= (0 if f in params else 1) for f in free) or name in adjacent:
             out[name] = v
     return out
 
